@@ -31,6 +31,89 @@ Definition gpf_weight (S : SOps) (lw l t q : T S) : T S :=
   ssub S (sadd S (sadd S lw (sln S (sadd S l (stiny S)))) (sln S (sadd S t (stiny S))))
        (sln S (sadd S q (stiny S))).
 
+(* ---- lifetime of the random source, the validity flag and the likelihood model (World C)
+   GPFCorrection's constructors build gaussian_random_sample_ as a closure
+   [&]{ return distribution_(generator_); } over the members of the object being
+   constructed (GPFCorrection.cpp:36-42) and initialise valid_likelihood_ to false
+   (GPFCorrection.h).  HEAD (after the fix commits d193577 and 57c1b76): the move
+   constructor and the move assignment bind a NEW closure over the destination's own
+   members, move (= copy) the generator state, copy valid_likelihood_, and transfer all
+   three models, likelihood_model_ included (GPFCorrection.cpp:45-80).
+   [fixed = false] is the transcription of the code BEFORE those commits, kept for the
+   regression section of Properties_C08.v: valid_likelihood_ was never initialised, both
+   move operations moved the closure verbatim (it kept reading the generator of the
+   object it was built in), and the move assignment left likelihood_model_ behind.
+   Objects are identified by a number; a generator state is (seed, draws consumed);
+   a likelihood model is identified by a number, None = null pointer. *)
+Record rs_obj := mkRsObj {
+  rs_id : nat;
+  rs_alive : bool;
+  rs_target : nat;              (* the object whose generator_ / distribution_ the closure reads *)
+  rs_valid : option bool;       (* valid_likelihood_; None = indeterminate (never written) *)
+  rs_lik : option nat;          (* likelihood_model_ *)
+  rs_gen : nat * nat            (* generator_: seed, number of draws consumed *)
+}.
+Inductive rs_op :=
+| RsConstruct (id seed lik : nat)        (* GPFCorrection(lik, gc, sm, seed) *)
+| RsMove (dst src : nat)                 (* GPFCorrection dst(std::move(src)) *)
+| RsMoveAssign (dst src : nat)           (* dst = std::move(src) *)
+| RsCorrect (id : nat) (valid : bool)    (* correct(): writes valid_likelihood_ *)
+| RsDraw (id : nat)                      (* one call of gaussian_random_sample_() of object id *)
+| RsDestroy (id : nat).                  (* ~GPFCorrection() *)
+
+Definition rs_find (st : list rs_obj) (id : nat) : option rs_obj :=
+  find (fun o => Nat.eqb (rs_id o) id) st.
+(* in-place update of object id (the update keeps rs_id) *)
+Definition rs_upd (st : list rs_obj) (id : nat) (f : rs_obj -> rs_obj) : list rs_obj :=
+  map (fun o => if Nat.eqb (rs_id o) id then f o else o) st.
+Definition rs_moved_from (o : rs_obj) : rs_obj :=      (* unique_ptr members are null after a move *)
+  mkRsObj (rs_id o) (rs_alive o) (rs_target o) (rs_valid o) None (rs_gen o).
+
+Definition rs_step (fixed : bool) (st : list rs_obj) (op : rs_op) : list rs_obj :=
+  match op with
+  | RsConstruct id seed k =>
+      mkRsObj id true id (if fixed then Some false else None) (Some k) (seed, 0) :: st
+  | RsMove dst src =>
+      match rs_find st src with
+      | Some o => mkRsObj dst true (if fixed then dst else rs_target o) (rs_valid o) (rs_lik o) (rs_gen o)
+                  :: rs_upd st src rs_moved_from
+      | None => st
+      end
+  | RsMoveAssign dst src =>
+      match rs_find st src with
+      | Some o =>
+          rs_upd (rs_upd st dst (fun d => mkRsObj (rs_id d) (rs_alive d) (if fixed then rs_id d else rs_target o) (rs_valid o)
+                                                  (if fixed then rs_lik o else rs_lik d) (rs_gen o)))
+                 src (fun s => if fixed then rs_moved_from s else s)
+      | None => st
+      end
+  | RsCorrect id v =>
+      rs_upd st id (fun o => mkRsObj (rs_id o) (rs_alive o) (rs_target o) (Some v) (rs_lik o) (rs_gen o))
+  | RsDraw id =>
+      match rs_find st id with
+      | Some o => rs_upd st (rs_target o)
+                    (fun t => mkRsObj (rs_id t) (rs_alive t) (rs_target t) (rs_valid t) (rs_lik t) (fst (rs_gen t), Datatypes.S (snd (rs_gen t))))
+      | None => st
+      end
+  | RsDestroy id =>
+      rs_upd st id (fun o => mkRsObj (rs_id o) false (rs_target o) (rs_valid o) (rs_lik o) (rs_gen o))
+  end.
+Definition rs_run (fixed : bool) (ops : list rs_op) : list rs_obj := fold_left (rs_step fixed) ops [].
+
+(* the generator an object's proposal draws come from: Some id, or None when the
+   closure dangles (undefined behaviour) *)
+Definition rs_draw_source (st : list rs_obj) (id : nat) : option nat :=
+  match rs_find st id with
+  | Some o => match rs_find st (rs_target o) with
+              | Some t => if rs_alive t then Some (rs_id t) else None
+              | None => None
+              end
+  | None => None
+  end.
+(* what getLikelihood() reports as validity *)
+Definition rs_reported_valid (st : list rs_obj) (id : nat) : option bool :=
+  match rs_find st id with Some o => rs_valid o | None => None end.
+
 Section GPF.
 Variable O : MatOps.
 Notation S := (sc O).
